@@ -13,6 +13,8 @@ Decided
       three members or none
   P1  each metadata file is loaded inside a handler that catches any exception and continues
   D1  None values are dropped before writing; a later file / row overrides an earlier one per field and cluster
+  +   the metadata writer and reader use the same csv dialect (quoting, quote / escape characters); the subset store is never half-loaded
+      (existence test on all three files, or every read inside a handler that answers "no store")
 Not decided: overwrite semantics across histories at value level, cell typing (C18), the waveforms themselves (C03).
 """
 import ast
@@ -453,8 +455,10 @@ def run(ctx):
     t1_agreement(ctx)
     p1_d1(ctx)
     # metadata values (integers, floats, strings) come back through _try_make_number: its contract is a prerequisite of "the last saved mapping is shown"
-    from obligations.C18 import number_recovery
+    from obligations.C18 import number_recovery, csv_dialect_agreement
     ctx.part('C10.T1', number_recovery, 'C10.T1')
+    # the metadata files are written by _write_tsv_simple and read by _read_tsv_simple: a label with a tab, a quote or a line break survives only if the two agree on the dialect
+    ctx.part('C10.T1', csv_dialect_agreement, 'C10.T1', '_write_tsv_simple', '_read_tsv_simple')
 
 
 LEVEL_TEXT = ('Static effect analysis of the four saving methods of the model against per-method write whitelists (so that no save can touch '
